@@ -121,8 +121,8 @@ def check_writer(run, prog, f, adt, short):
 def check_reader(run, prog, adt, tp, short):
     nfields = {v["name"]: len(v["fields"]) for v in adt["variants"]}
     # every visit_seq / visit_map / visit_enum / visit_newtype_struct of a visitor defined inside this type's Deserialize impl
-    mod = tp.rsplit("::", 1)[0]
-    vis = [f for k, f in prog.fns.items() if k.startswith("<" + mod + "::_::") and "mir" in f and
+    import re as _re
+    vis = [f for k, f in prog.fns.items() if _re.match(r"^<crate(::\w+)*::_::", k) and "mir" in f and
            any(k.endswith(s) for s in ("::visit_seq", "::visit_map", "::visit_enum", "::visit_newtype_struct"))]
     mine = []
     ctor_refs = {}
